@@ -91,6 +91,15 @@ def operand_kind(ctx, b, o, depth=0, fields=True):
                 return operand_kind(ctx, b, rv['op'], depth + 1, fields)
             if rv['rv'] == 'unop' and rv['op'] == 'PtrMetadata':
                 return 'len'
+        # `u64::from(x)` / `x.into()` of a narrower unsigned integer is the lossless spelling of the widening `as` cast
+        if len(ds) == 1 and ds[0][0] == 'call' and not ds[0][3]['dest'].get('p'):
+            t_ = ds[0][3]
+            cal = norm(str(t_.get('callee') or ''))
+            if cal in ('std::convert::From::from', 'std::convert::Into::into') and len(t_.get('args') or ()) == 1:
+                a_ = t_['args'][0]
+                src = a_.get('pty') or (b.local_ty(op_local(a_))['s'] if op_local(a_) is not None else None)
+                if INT_BITS.get(src, 0) and INT_BITS.get(ty, 0) and INT_BITS[src] < INT_BITS[ty] and str(src).startswith('u') and str(ty).startswith('u'):
+                    return 'cast(%s)' % src
     return ty
 
 
@@ -538,6 +547,8 @@ def rule_inv_panic(ctx):
     found = Counter()
     where = {}
     mkey = {}
+    sites = defaultdict(list)
+    pairs = defaultdict(set)
     auto = Counter()
     # unwrap facts per function via the abstract interpreter
     proved = {}
@@ -592,6 +603,17 @@ def rule_inv_panic(ctx):
                 if last == 'expect' and pmsg:
                     # an `expect` is also identified by its message (the operand type changes when the code around it is made generic)
                     mkey[key] = '%s|msg:%s' % ('::'.join(ext.split('::')[-2:]), pmsg[:60])
+                    # ... and, together with the function whose result it unwraps, names ONE reviewed obligation: the same message on the result
+                    # of the same callee at a second site (a recording helper split in two) is the same obligation
+                    prod = None
+                    l0 = op_local(a0) if a0 is not None else None
+                    ds0 = b.defs().get(l0, []) if l0 is not None else []
+                    if len(ds0) == 1 and ds0[0][0] == 'call':
+                        tg0 = prog.call_targets(b, ds0[0][3])
+                        prod = (sorted(tg0[0])[0] if tg0[0] else tg0[1])
+                    pairs[key].add((prod, pmsg) if prod else (nid, t.get('line')))
+                else:
+                    pairs[key].add((nid, t.get('line')))
             else:
                 # panic!/unreachable!/assert!: keyed by the message (constant operand), crate-wide
                 msg = ''
@@ -607,7 +629,46 @@ def rule_inv_panic(ctx):
                     key = '%s|%s' % (last, msg)
             found[key] += 1
             where[key] = (nid, t.get('line'))
+            sites[key].append((nid, t.get('line')))
     msg_table = table.get('expect_messages', {})
+
+    def never_reached(fn, line, depth=0, force=()):
+        """The diverging call at (fn, line) is on no explored path of fn itself, or -- fn being private -- of any of its callers with fn
+        stepped into (the callers pass constants that exclude the arm: `match region { .., Other => unreachable!() }`)."""
+        root = prog.bodies[fn].root if prog.bodies[fn].kind == 'closure' and prog.bodies[fn].root else fn
+        fset = set(force) | {fn, root}
+
+        def reaches(entry):
+            try:
+                sx = ctx.symex(inline_depth=3, loop_visits=2, max_paths=3000,
+                               inline_pred=lambda n_, bb, d: True if (n_ in fset or (bb.kind == 'closure' and d < 3)) else False)
+                ps = sx.run(entry)
+            except PathLimit:
+                return True
+            return (not ps) or any(e[0] == 'diverge' and e[3] == line and e[4] == fn for p_ in ps for e in p_.events)
+        if not reaches(root):
+            return 'in %s itself' % root.split('::')[-1]
+        if depth >= 2 or root in set(prog.public_api()):
+            return None
+        cs = {(prog.bodies[c].root if prog.bodies[c].kind == 'closure' and prog.bodies[c].root else c) for c in prog.callers().get(root, ())} - {root}
+        if not cs or len(cs) > 6:
+            return None
+        whys = []
+        for c in sorted(cs):
+            if not reaches(c):
+                whys.append(c.split('::')[-1])
+                continue
+            w = None
+            if c not in set(prog.public_api()) and depth < 1:
+                cs2 = {(prog.bodies[x].root if prog.bodies[x].kind == 'closure' and prog.bodies[x].root else x) for x in prog.callers().get(c, ())} - {c, root}
+                if cs2 and len(cs2) <= 4:
+                    fset.add(c)
+                    if all(not reaches(c2) for c2 in sorted(cs2)):
+                        w = c.split('::')[-1] + ' <- ' + ','.join(sorted(x.split('::')[-1] for x in cs2))
+            if w is None:
+                return None
+            whys.append(w)
+        return 'in every calling context: ' + '; '.join(whys)
     for key, n in sorted(found.items()):
         ent = want.get(key)
         if ent is None and mkey.get(key) in msg_table and msg_table[mkey[key]] in want:
@@ -620,7 +681,19 @@ def rule_inv_panic(ctx):
             r.violate(nid, 'unreviewed-panic', key.split('|', 1)[1], 'panic-capable call that is neither proved unreachable nor covered by a reviewed table entry: %s' % key,
                       where=ctx.where(nid, line), expected='handle the None/Err case, or a reviewed entry in tables/panic_sites.json')
             continue
+        if pairs.get(key) and len(pairs[key]) < n:
+            n = len(pairs[key])     # distinct (unwrapped callee, message) obligations
         r.instance(site=key, count=n, discharged='TABLE:' + ent['class'], reason=ent['reason'])
+        if n > ent.get('count', 1) and 'unreachable' in key:
+            # more `unreachable!()` sites than reviewed: those that are on no path of any calling context do not count
+            for fn_, ln_ in sites[key]:
+                if n <= ent.get('count', 1):
+                    break
+                w_ = never_reached(fn_, ln_)
+                if w_:
+                    n -= 1
+                    auto['PROVED-UNREACHABLE'] += 1
+                    r.instance(function=fn_, call='unreachable!()', discharged='PROVED: the arm is on no explored path ' + w_)
         if n > ent.get('count', 1):
             r.violate(nid, 'unreviewed-panic', key.split('|', 1)[1] + '#%d' % n, '%d occurrences of %s but only %d reviewed' % (n, key, ent.get('count', 1)), where=ctx.where(nid, line))
     stale = sorted(set(want) - set(found))
@@ -1080,7 +1153,7 @@ def rule_deque_shape(ctx):
             if t_ is not None and is_none(t_) and not (h is not None and is_none(h)):
                 bad = 'tail becomes None but head is %s' % ('left unchanged' if h is None else fmt(h)[:40])
             ln = finals.get('len')
-            role = 'push' if nid in get_roles(ctx).push else ('move' if nid in get_roles(ctx).move else 'remove')
+            role = 'push' if nid in get_roles(ctx).push else ('move' if (nid in get_roles(ctx).move or nid in get_roles(ctx).move_prims) else 'remove')
             if ln is not None:
                 from .rules_flow import lin
                 f = lin(ln)
